@@ -155,6 +155,9 @@ class Ctx:
         if isinstance(goal, bool):
             goal = z3.BoolVal(goal)
         text = _short(goal)
+        rw = getattr(self, "rewrites", None)
+        if rw:
+            goal = z3.substitute(z3.simplify(goal), *rw)
         if z3.is_true(z3.simplify(goal)):
             self.obls.append(Obl(name, text, "unsat", "simplify", 0.0, path_id=self.path_id, label=label))
             return
